@@ -34,3 +34,9 @@ pub union Padded {
 pub fn read_padded(x: (u8, u32)) -> [u8; 8] {
     unsafe { Padded { a: x }.b }
 }
+
+/// address-dependent splitting of a byte slice
+pub fn split_by_alignment(data: &mut [u8]) -> usize {
+    let (head, body, _tail) = unsafe { data.align_to_mut::<u64>() };
+    head.len() + body.len()
+}
